@@ -92,10 +92,14 @@ if mode == "full" and os.path.exists(nav):
 def add(relpath, text):
     emit(os.path.join(repo, relpath), text)
 
+# process-wide xpath classification cache (added to /repo by fix c6325e5): reset hook if present
+query_go = os.path.join(repo, "idr/query.go")
+has_kind_cache = os.path.exists(query_go) and "nodeSetXPathCache = caches.NewLoadingCache()" in open(query_go).read()
+kind_cache_reset = "nodeSetXPathCache = caches.NewLoadingCache()" if has_kind_cache else ""
 add("idr/zz_verif_hooks.go", """//go:build verif
 
 package idr
-
+""" + ('\nimport "github.com/jf-tech/go-corelib/caches"\n' if has_kind_cache else "") + """
 // VerifSetNodeCaching switches node pooling and returns the previous setting.
 func VerifSetNodeCaching(on bool) bool { old := nodeCaching; nodeCaching = on; return old }
 
@@ -120,7 +124,10 @@ func verifNavStep() {
 		f()
 	}
 }
-""" % nav_steps)
+
+// VerifResetXPathKindCache empties the process-wide 'is this xpath a node-set expression' cache, if the tree has one.
+func VerifResetXPathKindCache() { %s }
+""" % (nav_steps, kind_cache_reset))
 add("extensions/omniv21/customfuncs/zz_verif_hooks.go", """//go:build verif
 
 package customfuncs
